@@ -222,7 +222,120 @@ func c18(r *vlib.Run) int {
 		}
 	}
 	c18E2E(r)
+	c18Reconnect(r)
 	return n / 2
+}
+
+// c18Reconnect: a retrying client (dtail) whose connections are dropped by
+// every server. Monitors over the servers' connection log: unlisted servers are
+// never contacted; the client never holds two connections to one server at the
+// same time (a reconnect replaces the dropped connection of that very server);
+// no server is left out of the reconnects while another one is re-contacted
+// again and again.
+func c18Reconnect(r *vlib.Run) {
+	rng := r.Rng("reconnect")
+	nCases := r.N(3, 24)
+	key, err := vlib.GenKey("ed25519")
+	if err != nil {
+		r.Inconclusive("keygen")
+		return
+	}
+	hk := vlib.HostKey()
+	hkFile := r.Dir("c18rc") + "/hostkey.pem"
+	os.WriteFile(hkFile, hk.PEM, 0600)
+	seeds := make([]int64, nCases)
+	for i := range seeds {
+		seeds[i] = rng.Int63()
+	}
+	vlib.Parallel(nCases, 6, func(ci int) {
+		crng := rand.New(rand.NewSource(seeds[ci]))
+		k := 2 + crng.Intn(4)
+		var ports []int
+		for len(ports) < k+1 {
+			p := vlib.FreePort()
+			dup := false
+			for _, q := range ports {
+				if q == p {
+					dup = true
+				}
+			}
+			if !dup && p != 0 {
+				ports = append(ports, p)
+			}
+		}
+		f, err := startFakeSSHD(r, fmt.Sprintf("c18rc-%d", ci), ports, []string{hkFile}, "", 150+crng.Intn(300))
+		if err != nil {
+			r.Inconclusive("fakesshd")
+			return
+		}
+		defer f.Stop()
+		var list []string
+		for i := 0; i < k; i++ {
+			list = append(list, fmt.Sprintf("127.0.0.1:%d", ports[i]))
+		}
+		full := append([]string(nil), list...)
+		if crng.Intn(2) == 0 {
+			full = append(full, list[crng.Intn(len(list))])
+		}
+		home, keyFile := r.ClientHome(fmt.Sprintf("c18rc-%d", ci), key)
+		defer os.RemoveAll(home)
+		args := []string{"--cfg", "none", "--noColor", "--trustAllHosts", "--key", keyFile, "--user", "tester",
+			"--logger", "stdout", "--logLevel", "error", "--files", "/var/log/x.log", "--shutdownAfter", "11",
+			"--servers", strings.Join(full, ",")}
+		res := vlib.RunCmd(vlib.Cmd{Path: r.Bin("dtail"), Args: args, Env: []string{"HOME=" + home}, Dir: home})
+		if res.TimedOut {
+			r.Inconclusive("dtail-watchdog")
+			return
+		}
+		total := map[int]int{}
+		live := map[int]int{}
+		maxLive := map[int]int{}
+		for _, e := range f.Events() {
+			switch e.Ev {
+			case "conn":
+				total[e.Port]++
+				live[e.Port]++
+				if live[e.Port] > maxLive[e.Port] {
+					maxLive[e.Port] = live[e.Port]
+				}
+			case "closed", "handshake-failed":
+				live[e.Port]--
+			}
+		}
+		r.Eval(fmt.Sprintf("reconnect|%d|%d", k, len(full)))
+		r.Count("reconnect_runs", 1)
+		lo, hi := 1<<30, 0
+		for i := 0; i < k; i++ {
+			n := total[ports[i]]
+			r.Count("reconnect_connections_observed", n)
+			if n < lo {
+				lo = n
+			}
+			if n > hi {
+				hi = n
+			}
+		}
+		if hi >= 2 {
+			r.Count("reconnect_runs_with_reconnects", 1)
+		}
+		detail := map[string]interface{}{"servers": full, "listed_ports": ports[:k], "unlisted_port": ports[k],
+			"connections_per_port": fmt.Sprint(total), "max_simultaneous_per_port": fmt.Sprint(maxLive)}
+		switch {
+		case total[ports[k]] > 0:
+			r.Violation("reconnect-unlisted-server-contacted", detail)
+		case lo == 0:
+			r.Violation("reconnect-listed-server-never-contacted", detail)
+		case lo == 1 && hi >= 4:
+			r.Violation("reconnect-server-left-out-while-another-is-contacted-repeatedly", detail)
+		default:
+			for i := 0; i < k; i++ {
+				if maxLive[ports[i]] > 1 {
+					r.Violation("reconnect-two-connections-to-one-server-at-a-time", detail)
+					break
+				}
+			}
+		}
+	})
 }
 
 func hashStrings(ss []string) uint64 {
